@@ -79,6 +79,43 @@ pub fn schedules(_seed: u64) -> usize {
             found += 1;
         }
     }
+    // the switch: a stream that starts in the clear and is switched to encryption after `k` bytes were consumed; the transport
+    // may deliver the last plaintext bytes and the first ciphertext bytes in the same read (pipelining client, TCP coalescing)
+    for k in [1usize, 5, 40] {
+        for chunk in [1usize, 3, 64, 4096] {
+            for first_read in [1usize, 2, k] {
+                let clear: Vec<u8> = (0..k as u32).map(|i| (i * 13 + 1) as u8).collect();
+                let mut wire = clear.clone();
+                wire.extend_from_slice(&reference);
+                let (c2, p2) = (clear.clone(), plain.clone());
+                let got: Result<(Vec<u8>, Vec<u8>), std::io::Error> = rt.block_on(async move {
+                    let mut s = CipherStream::new(Drip { data: wire, pos: 0, chunk }, None, None);
+                    // the clear part is consumed in reads of `first_read` bytes, like read_varint / read_exact do
+                    let mut head = vec![0u8; c2.len()];
+                    let mut at = 0;
+                    while at < head.len() {
+                        let n = first_read.min(head.len() - at);
+                        s.read_exact(&mut head[at..at + n]).await?;
+                        at += n;
+                    }
+                    let (e, d) = create_ciphers(secret).unwrap();
+                    s.set_encryption(Some(e), Some(d));
+                    let mut out = vec![0u8; p2.len()];
+                    s.read_exact(&mut out).await?;
+                    Ok((head, out))
+                });
+                match got {
+                    Ok((h, o)) if h == clear && o == plain => {}
+                    _ => {
+                        if found < 5 {
+                            println!("REPRODUCED cipher switch after {k} clear bytes (transport reads of {chunk} bytes, reader asks for {first_read} at a time): the bytes after the switch do not decrypt to the plaintext");
+                        }
+                        found += 1;
+                    }
+                }
+            }
+        }
+    }
     found
 }
 
